@@ -286,8 +286,23 @@ def wire_case(item):
         return res
     client_version = (3, 3) if v > (3, 3) else v
     traces = {}
-    for (label, em) in wire_classes(k, client_version):
-        c = pow(int.from_bytes(em, "big"), e, n).to_bytes(k, "big")
+    goodc = pow(int.from_bytes(wire_classes(k, client_version)[0][1], "big"),
+                e, n).to_bytes(k, "big")
+    raw = [("ct-len-0", b""), ("ct-len-1", b"\x17"),
+           ("ct-len-k-1", goodc[1:]), ("ct-len-k+1", b"\x00" + goodc),
+           ("ct-len-k+1-trailing", goodc + b"\x00"),
+           ("ct-len-2k", goodc + goodc),
+           ("ct-value-0", bytes(k)), ("ct-value-1", bytes(k - 1) + b"\x01"),
+           ("ct-value-n-1", (n - 1).to_bytes(k, "big")),
+           ("ct-value-n", n.to_bytes(k, "big")),
+           ("ct-value-n+1", (n + 1).to_bytes(k, "big")),
+           ("ct-value-all-ff", b"\xff" * k)]
+    for (label, em) in wire_classes(k, client_version) + [
+            ("raw:" + lab, cb) for (lab, cb) in raw]:
+        if label.startswith("raw:"):
+            c = em
+        else:
+            c = pow(int.from_bytes(em, "big"), e, n).to_bytes(k, "big")
         if v == (3, 0):
             body = c
         else:
